@@ -28,34 +28,52 @@ import (
 
 func c05PoolOps(r *verifh.Rng, n, maxage, nops int, breach bool) []string {
 	var ops []string
-	var held []int
+	est := 0 // generator's estimate of the resources the harness holds (the executor resolves "@k" itself)
 	next := 0
+	get := func() {
+		ops = append(ops, "get")
+		if est < n {
+			est++
+		}
+	}
+	put := func() {
+		// "put @k" = give back the k-th resource the harness holds at execution time
+		ops = append(ops, fmt.Sprintf("put @%d", r.Intn(n+1)))
+		if est > 0 {
+			est--
+		}
+	}
+	advance := func() {
+		if maxage > 0 {
+			ops = append(ops, fmt.Sprintf("t+ %d", r.Pick(1, maxage-1, maxage, maxage+1, 2*maxage, r.Range(1, 3*maxage))))
+		} else {
+			ops = append(ops, fmt.Sprintf("t+ %d", r.Range(1, 1000)))
+		}
+	}
 	for len(ops) < nops {
 		switch x := r.Intn(100); {
-		case x < 40:
-			ops = append(ops, "get")
-			// the generator does not know which id comes back; it tracks "some resource" by count only
-			if len(held) < n {
-				held = append(held, -1)
+		case x < 35:
+			if est < n || r.Chance(1, 5) {
+				get()
+			} else {
+				put()
+			}
+		case x < 62:
+			if est > 0 {
+				put()
+				if maxage > 0 && r.Chance(1, 3) {
+					// let the resource just put back expire (or just not) before the next get
+					ops = append(ops, fmt.Sprintf("t+ %d", r.Pick(maxage, maxage+1, 2*maxage)))
+					get()
+				}
+			} else {
+				get()
 			}
 		case x < 75:
-			// put: ids are resolved by the executor ("put @k" = k-th resource currently held by the harness)
-			if len(held) > 0 {
-				ops = append(ops, fmt.Sprintf("put @%d", r.Intn(len(held))))
-				held = held[1:]
-			} else {
-				ops = append(ops, "get")
-				held = append(held, -1)
-			}
+			advance()
 		case x < 85:
-			if maxage > 0 {
-				ops = append(ops, fmt.Sprintf("t+ %d", r.Pick(1, maxage-1, maxage, maxage+1, 2*maxage, r.Range(1, 3*maxage))))
-			} else {
-				ops = append(ops, fmt.Sprintf("t+ %d", r.Range(1, 1000)))
-			}
-		case x < 92:
 			ops = append(ops, "stat")
-		case x < 95:
+		case x < 88:
 			ops = append(ops, "putnil")
 		case x < 97 && breach:
 			// contract breach: a resource the pool never handed out / a double put
@@ -78,20 +96,20 @@ func c05Gen(r *verifh.Rng) []verifh.Section {
 	pickN := func() int { return c5.PickN(r) }
 	ret := func() string { return "return" }
 	// sequential differential
-	for i := 0; i < verifh.Scale(10, 150); i++ {
+	for i := 0; i < verifh.Scale(10, 400); i++ {
 		n := pickN()
 		secs = append(secs, verifh.Section{Cfg: fmt.Sprintf("kind=limit mode=seq n=%d", n),
 			Ops: c5.SeqOps(r, n, r.Range(10, 60), true, ret)})
 	}
-	for i := 0; i < verifh.Scale(5, 60); i++ {
+	for i := 0; i < verifh.Scale(5, 200); i++ {
 		n := pickN()
 		secs = append(secs, verifh.Section{Cfg: fmt.Sprintf("kind=tlimit mode=seq n=%d", n),
 			Ops: c5.SeqOps(r, n, r.Range(10, 40), true, ret)})
 	}
-	for i := 0; i < verifh.Scale(12, 200); i++ {
+	for i := 0; i < verifh.Scale(14, 600); i++ {
 		n := r.Pick(1, 1, 2, 3, r.Range(1, 6))
 		maxage := r.Pick(0, 10, 100, 100)
-		breach := r.Chance(1, 5)
+		breach := r.Chance(1, 3)
 		b := 0
 		if breach {
 			b = 1
@@ -100,7 +118,7 @@ func c05Gen(r *verifh.Rng) []verifh.Section {
 			Ops: c05PoolOps(r, n, maxage, r.Range(10, 60), breach)})
 	}
 	// concurrent histories
-	for i := 0; i < verifh.Scale(4, 40); i++ {
+	for i := 0; i < verifh.Scale(4, 100); i++ {
 		n := r.Pick(1, 2, 3, r.Range(1, 8))
 		g := r.Pick(n+1, 2*n+1, r.Range(2, 16))
 		secs = append(secs, verifh.Section{Cfg: fmt.Sprintf("kind=limit mode=conc n=%d", n), Ops: []string{
@@ -109,14 +127,14 @@ func c05Gen(r *verifh.Rng) []verifh.Section {
 			fmt.Sprintf("run g=%d iters=%d try=%d pan=%d rs=%d", g, r.Range(10, 40), 50, 20, r.Intn(1<<30)),
 		}})
 	}
-	for i := 0; i < verifh.Scale(3, 24); i++ {
+	for i := 0; i < verifh.Scale(4, 60); i++ {
 		n := r.Pick(1, 2, r.Range(1, 6))
 		g := r.Pick(n+1, 2*n+2, r.Range(2, 12))
 		secs = append(secs, verifh.Section{Cfg: fmt.Sprintf("kind=tlimit mode=conc n=%d", n), Ops: []string{
 			fmt.Sprintf("run g=%d iters=%d try=%d pan=%d rs=%d", g, r.Range(10, verifh.Scale(30, 100)), r.Pick(0, 30), r.Pick(0, 10, 30), r.Intn(1<<30)),
 		}})
 	}
-	for i := 0; i < verifh.Scale(4, 40); i++ {
+	for i := 0; i < verifh.Scale(5, 100); i++ {
 		n := r.Pick(1, 2, 3, r.Range(1, 6))
 		g := r.Pick(n+1, 2*n+1, r.Range(2, 12))
 		secs = append(secs, verifh.Section{Cfg: fmt.Sprintf("kind=pool mode=conc n=%d maxage=%d", n, r.Pick(0, 50, 200)), Ops: []string{
@@ -409,8 +427,8 @@ func c05StartPool(cfg verifh.Cfg) (func(op []string) string, func()) {
 								atomic.AddInt64(&double, 1)
 							}
 							c5.Hold(r)
-							if maxage > 0 && r.Chance(1, 4) {
-								timex.VerifAdvance(time.Duration(r.Range(1, maxage)))
+							if maxage > 0 && r.Chance(1, 3) {
+								timex.VerifAdvance(time.Duration(r.Range(1, 3*maxage)))
 							}
 							atomic.StoreInt32(&inUse[x&0xffff], 0)
 							hist.Rec(gid, fmt.Sprintf("p:%d:%d", gid, x))
